@@ -9,6 +9,8 @@ mkdir -p bin .work evidence replays
 go build -o bin/driver ./cmd/driver
 go build -tags verif -o bin/simrun ./cmd/simrun
 bin/simrun -selftest
+# unit tests of the machinery itself (tape, devices, scheduler, shrinker, reference models)
+go test -count=1 ./sim/kernel ./sim/driver ./sim/ref
 # warm the race-enabled build cache (used by the C20 check)
 go build -race -tags verif -o .work/simrun-race-warm ./cmd/simrun && rm -f .work/simrun-race-warm
 echo "setup ok"
